@@ -699,7 +699,7 @@ class AsyncServer:
 
         .. seealso:: :meth:`Server.stream`
         """
-        async for z in async_fifo_stream(
+        results = async_fifo_stream(
             data_stream,
             self._enqueue,
             capacity=self._capacity,
@@ -708,5 +708,12 @@ class AsyncServer:
             preprocessor=preprocessor,
             return_x=return_x,
             return_exceptions=return_exceptions,
-        ):
-            yield z
+        )
+        try:
+            async for z in results:
+                yield z
+        finally:
+            # Closing this generator does not close the inner one by itself;
+            # without this, its feeder keeps submitting inputs until the event loop
+            # gets around to finalizing it, even past `__aexit__`.
+            await results.aclose()
